@@ -34,6 +34,17 @@ def _prom(kind, bits):
         return [int(c) for c in bits]
     if kind == "tuple":
         return tuple(c == "1" for c in bits)
+    if kind in ("listx", "gen", "iter", "map"):
+        # items that are only truthy / falsy (an iterable is promoted item by item with bool()); gen / iter / map are one-shot
+        t, f_ = [1, 2, -1, "x", 7.5, True], [0, "", None, 0.0, False, ()]
+        items = [(t if c == "1" else f_)[(i + len(bits)) % 6] for i, c in enumerate(bits)]
+        if kind == "listx":
+            return items
+        if kind == "gen":
+            return (x for x in items)
+        if kind == "iter":
+            return iter(items)
+        return map(lambda x: x, items)
     if kind == "bitarray":
         return bitarray.bitarray(bits)
     if kind == "bytes":
@@ -179,7 +190,7 @@ def gen(rng, tier):
         for cb in CLASS_NAMES:
             for (la, lb) in [(0, 0), (0, 3), (3, 0), (1, 3), (3, 1), (3, 3), (8, 9), (9, 8), (64, 65), (65, 64), (5, 1030)]:
                 yield SEP.join(["C01", "add", ca, wire(rand_bits(rng, la)), cb, wire(rand_bits(rng, lb))])
-        for kind in ("str", "list", "tuple", "bitarray", "bytes"):
+        for kind in ("str", "list", "tuple", "bitarray", "bytes", "listx", "gen", "iter", "map"):
             for (la, lb) in [(0, 0), (0, 8), (8, 0), (3, 8), (8, 16), (24, 8), (7, 16), (65, 8)]:
                 if kind != "bytes" and rng.random() < 0.5:
                     lb = rng.choice([0, 1, 3, 9, 17])
@@ -195,6 +206,10 @@ def gen(rng, tier):
             bits = rand_bits(rng, n)
             for k in list(range(-2, 18)) + [31, 32, 33, 64, 100]:
                 yield SEP.join(["C01", "mul", cls, wire(bits), str(k)] + (["r"] if rng.random() < 0.3 else []))
+    # results far beyond any internal block / doubling threshold (64 Kibit … 1 Mibit)
+    for (n, k) in [(1, 70000), (1, 200000), (8, 50001), (13, 30001), (65, 4001), (1024, 300), (3, 350000)]:
+        cls = rng.choice(CLASS_NAMES)
+        yield SEP.join(["C01", "mul", cls, wire(rand_bits(rng, n)), str(k)] + (["r"] if rng.random() < 0.5 else []))
     for _ in range(1000 if big else 60):
         n = rng.choice([1, 7, 8, 9, 63, 64, 65])
         yield SEP.join(["C01", "mul", rng.choice(CLASS_NAMES), wire(rand_bits(rng, n)), str(rng.randint(0, 70))])
